@@ -1,7 +1,14 @@
 import Drivers.Proto
 import St4sd.Model.Ref
+import St4sd.Model.RefSession
 import St4sd.Gen.C09
-/-! Model driver for property C09 (data references). -/
+/-! Model driver for property C09 (data references).
+
+Session based: the lines of one batch are the calls of one interpreter session.  The state threaded
+through the lines is the class-level tables (`FlowIR.SpecialFolders`, `FlowIR.data_reference_methods`,
+`graph.DataReference.methods`, initialised from the constants regenerated from /repo) plus the number
+of calls made; every call is answered by `St4sd.Ref.step`, and `{"op":"tables"}` reports the tables
+the *next* call would see (the harness compares them with the live class attributes). -/
 open Lean Proto St4sd.Ref St4sd.Str
 
 def sfC : List S := St4sd.Gen.C09.specialFoldersC
@@ -38,87 +45,67 @@ def jerr : Json := jobj [("err", jbool true)]
 def jonat (o : Option Nat) : Json := jopt jnat o
 def jochars (o : Option S) : Json := jopt jchars o
 
-def handle (j : Json) : Except String Json := do
+def getKnownL (j : Json) (k : String) : Except String Known := do
+  return (← getKnown j k).getD []
+
+/-- request → call -/
+def parseCall (j : Json) : Except String Call := do
   let op ← getStr j "op"
   match op with
-  | "pdr" =>
-    let v ← getChars j "v"
-    match parseDataReference sfC v with
-    | none => return jerr
-    | some (r, f, m) => return jarr [jchars r, jochars f, jchars m]
-  | "ppr" =>
-    let r ← getChars j "r"
-    let i ← getOptNat j "i"
-    let p := parseProducerReference r i
-    return jarr [jonat p.1, jchars p.2.1, jbool p.2.2]
-  | "full" =>
-    let v ← getChars j "v"
-    let i ← getOptNat j "i"
-    let deps ← getCharsList j "deps"
-    let extra ← getCharsList j "extra"
-    match parseFull sfC v i deps extra with
-    | none => return jerr
-    | some (si, job, f, m) => return jarr [jonat si, jchars job, jochars f, jchars m]
-  | "isc" =>
-    let v ← getChars j "v"
-    let tlf ← getCharsList j "tlf"
-    match isDataRefToComponent sfC v tlf with
-    | none => return jerr
-    | some b => return jbool b
+  | "pdr" => return .pdr (← getChars j "v")
+  | "ppr" => return .ppr (← getChars j "r") (← getOptNat j "i")
+  | "full" => return .full (← getChars j "v") (← getOptNat j "i") (← getOptCharsList j "deps") (← getOptCharsList j "extra")
+  | "isc" => return .isc (← getChars j "v") (← getOptCharsList j "tlf")
   | "compile" =>
-    let p ← getChars j "p"
-    let f ← getOptChars j "f"
-    let m ← getChars j "m"
-    let s ← getOptNat j "s"
-    let r ← getOptNat j "r"
-    return jchars (compileReference p f m s r)
+    return .compile (← getChars j "p") (← getOptChars j "f") (← getChars j "m") (← getOptNat j "s") (← getOptNat j "r")
   | "expand" =>
-    let v ← getChars j "v"
-    let ctx ← getNat j "ctx"
-    let known ← getKnown j "known"
-    let tlf ← getOptCharsList j "tlf"
-    let force ← getBool j "force"
-    match expandPotential sfC v ctx known tlf force with
-    | none => return jerr
-    | some r => return jchars r
+    return .expand (← getChars j "v") (← getNat j "ctx") (← getKnown j "known") (← getOptCharsList j "tlf") (← getBool j "force")
   | "expand1" =>
-    let v ← getChars j "v"
-    let ctx ← getNat j "ctx"
-    let known ← getKnown j "known"
-    let deps ← getCharsList j "deps"
-    let tlf ← getCharsList j "tlf"
-    match expandOne sfC v ctx known deps tlf with
-    | none => return jerr
-    | some r => return jchars r
-  | "dref" =>
-    let v ← getChars j "v"
-    let i ← getOptNat j "i"
-    match dataRef sfC methodsC v i with
-    | none => return jerr
-    | some d => return jobj [("stage", jonat d.stage), ("name", jchars d.name), ("has", jbool d.hasIndex),
-        ("file", jochars d.file), ("method", jchars d.method), ("id", jchars d.identifier),
-        ("abs", jchars d.absolute), ("rel", jchars d.relative), ("uid", jchars (uidEscape d.identifier))]
-  | "tlf" =>
-    let keys ← getCharsList j "keys"
-    return jarr ((topLevelFolders keys).map jchars)
-  | "tlfold" =>
-    let keys ← getCharsList j "keys"
-    return jarr ((topLevelFoldersOld keys).map jchars)
-  | "appdep" =>
-    let v ← getChars j "v"
-    return jchars (appDepName v)
-  | "isvar" =>
-    let v ← getChars j "v"
-    return jbool (isVarRef v)
-  | "validate" =>
-    let v ← getChars j "v"
-    let stage ← getNat j "stage"
-    let known ← getKnown j "known"
-    let tlf ← getCharsList j "tlf"
-    match validateMissing sfC v stage (known.getD []) tlf with
-    | none => return jerr
-    | some none => return Json.null
-    | some (some (i, job)) => return jchars (stagePrefix i ++ job)
+    return .expandAll [← getChars j "v"] (← getNat j "ctx") (← getKnown j "known") (← getOptCharsList j "deps")
+      (← getOptCharsList j "tlf")
+  | "expandall" =>
+    return .expandAll (← getCharsList j "refs") (← getNat j "ctx") (← getKnown j "known") (← getOptCharsList j "deps")
+      (← getOptCharsList j "tlf")
+  | "dref" => return .dref (← getChars j "v") (← getOptNat j "i")
+  | "dri" => return .dri (← getChars j "v") (← getNat j "stage") (← getOptCharsList j "deps")
+  | "vrefs" => return .vrefs (← getChars j "v") (← getKnownL j "known") (← getOptNat j "implied") (← getOptCharsList j "tlf")
+  | "validate" => return .validate (← getChars j "v") (← getNat j "stage") (← getKnownL j "known") (← getCharsList j "tlf")
+  | "tlf" => return .tlf (← getCharsList j "keys")
+  | "tlfold" => return .tlfOld (← getCharsList j "keys")
+  | "appdep" => return .appdep (← getChars j "v")
+  | "isvar" => return .isvar (← getChars j "v")
   | _ => throw s!"unknown op {op}"
 
-def main : IO Unit := serve handle
+/-- answer → JSON; `first` = the request was `expand1` (the harness looks at element 0) -/
+def answerJson (first : Bool) : Answer → Json
+  | .err => jerr
+  | .pdr r f m => jarr [jchars r, jochars f, jchars m]
+  | .ppr si job has => jarr [jonat si, jchars job, jbool has]
+  | .full si job f m => jarr [jonat si, jchars job, jochars f, jchars m]
+  | .bool b => jbool b
+  | .str s => jchars s
+  | .strs l => if first then (match l with | x :: _ => jchars x | [] => Json.null) else jarr (l.map jchars)
+  | .dref d => jobj [("stage", jonat d.stage), ("name", jchars d.name), ("has", jbool d.hasIndex),
+      ("file", jochars d.file), ("method", jchars d.method), ("id", jchars d.identifier),
+      ("abs", jchars d.absolute), ("rel", jchars d.relative), ("uid", jchars (uidEscape d.identifier))]
+  | .dri pid m => jobj [("pid", jochars pid), ("method", jchars m)]
+  | .missing o => jochars o
+
+structure Sess where
+  tables : Tables
+  calls : Nat
+
+def initSess : Sess := { tables := { special := sfC, methods := methodsC, drMethods := methodsC }, calls := 0 }
+
+def tablesJson (s : Sess) : Json :=
+  jobj [("special", jarr (s.tables.special.map jchars)), ("methods", jarr (s.tables.methods.map jchars)),
+    ("dr_methods", jarr (s.tables.drMethods.map jchars)), ("calls", jnat s.calls)]
+
+def handle (s : Sess) (j : Json) : Except String (Sess × Json) := do
+  let op ← getStr j "op"
+  if op == "tables" then return (s, tablesJson s)
+  let c ← parseCall j
+  let r := step s.tables c
+  return ({ tables := r.1, calls := s.calls + 1 }, answerJson (op == "expand1") r.2)
+
+def main : IO Unit := serveSt initSess handle
